@@ -247,6 +247,13 @@ func NameMatches(callee, pn string) bool {
 	if c == pn {
 		return true
 	}
+	if !strings.ContainsAny(pn, "./") {
+		// bare name: matches the last component (function or method name)
+		if i := strings.LastIndexAny(c, "./"); i >= 0 {
+			return c[i+1:] == pn
+		}
+		return false
+	}
 	return strings.HasSuffix(c, "."+pn) || strings.HasSuffix(c, "/"+pn)
 }
 
